@@ -160,7 +160,8 @@ class Ctx:
         cmd = ["tlc"]  # wrapper on PATH knows the classpath
         e = dict(os.environ)
         e.update(env or {})
-        jopts = "-Xmx%s -XX:+UseParallelGC" % heap
+        # (TLC creates an empty tlc-<n> directory under java.io.tmpdir on every start: keep it inside the scratch directory)
+        jopts = "-Xmx%s -XX:+UseParallelGC -Djava.io.tmpdir=%s" % (heap, meta)
         if deque:
             jopts += " -Dtlc2.tool.queue.IStateQueue=StateDeque"
         e["JAVA_TOOL_OPTIONS"] = jopts
